@@ -2,8 +2,8 @@ from common import COMMON_TB
 
 CFG = {
     "technique": "Lean 4 theorems (invariant over all valid notification histories; rollback-loop characterisation) + differential run of a real wallet.Wallet against a scripted fake chain.Interface",
-    "level_text": "C15_tip / C15_hashes / C15_no_offchain_tx hold for every valid evolution (extensions, reorgs of any depth within the remembered window, stale and repeated disconnects, repeated connects and tx notifications, all three notification orders, any placement of wallet transactions, every W >= 1) by an invariant proved preserved by every step; C15_startup gives the total outcome of the syncWithChain rollback transaction for every old/new chain pair. The model is tied to the Go code by running the real Wallet (SynchronizeRPC) on generated evolutions incl. restarts and comparing SyncedTo, the remembered hashes, the wtxmgr tx records and the birthday block after every step.",
-    "level_note": "Trusted: Lean kernel; the hand model Model/SyncTip.lean (checked by correspondence on explored histories only); wtxmgr is abstracted to records (tx, block) - its credit/balance bookkeeping is C01/C02; bbolt atomicity of walletdb.Update (C11); in-memory = on-disk sync state (C08). Notifications delivered before RescanFinished (initial rescan window) are outside C15's text and only explored. The theorems follow the current /repo, which contains both C15 fixes: fc5593c (disconnectBlock records the parent block's hash) and f123a5c (startup rollback before recovery; delivered as repo-patches/fix-C15-startup-rollback-before-recovery.diff).",
+    "level_text": "C15_tip / C15_hashes / C15_no_offchain_tx hold for every valid evolution (extensions, reorgs of any depth within the remembered window, stale and repeated disconnects, repeated connects and tx notifications, all three notification orders, any placement of wallet transactions, every W >= 1) by an invariant proved preserved by every step; C15_startup gives the total outcome of the syncWithChain rollback transaction for every old/new chain pair; C15_startup_total / C15_startup_establishes_inv compose the whole start-up (rollback loop, recovery in batches when recW > 0, rescan, RescanFinished/catchUpHashes) with the evolution theorems: a stopped wallet that gets through syncWithChain against ANY backend chain is in the state Inv the evolution theorems start from (C15_startup_then_evolve_tip/_hashes/_no_offchain_tx), C15_startup_succeeds says when it does, C15_startup_blocks_during_rescan covers blocks arriving during the rescan when nothing has to be caught up. C15_notifications_follow_backend: the notifyAttachedBlock/notifyDetachedBlock calls made over any valid evolution replay to the backend's final tip and the modelled NotificationServer delivers or holds exactly those detached hashes. The model is tied to the Go code by running the real Wallet (SynchronizeRPC) on generated evolutions incl. restarts and comparing SyncedTo, the remembered hashes, the wtxmgr tx records, the birthday block and the TransactionNotifications delivered to a registered wallet.NtfnServer client (attached blocks with heights and transactions, detached block hashes, unmined transactions, in order) after every step.",
+    "level_note": "Trusted: Lean kernel; the hand model Model/SyncTip.lean (checked by correspondence on explored histories only); wtxmgr is abstracted to records (tx, block) - its credit/balance bookkeeping is C01/C02; bbolt atomicity of walletdb.Update (C11); in-memory = on-disk sync state (C08). Notifications delivered before RescanFinished (initial rescan window) are outside C15's text and only explored. The theorems follow /repo with fc5593c and repo-patches/fix-C15-startup-rollback-before-recovery.diff applied.",
     "lean_props": ["BtcwVerif.Props.C15"],
     "engines": ["walletchain-sync"],
     "trusted_base": COMMON_TB + [
